@@ -2,6 +2,7 @@ package core
 
 import (
 	"fmt"
+	"go/constant"
 	"go/token"
 	"go/types"
 	"sort"
@@ -904,4 +905,84 @@ func cellOnlyCalled(a *ssa.Alloc) bool {
 		}
 	}
 	return true
+}
+
+// FeasiblePaths enumerates the acyclic entry→return paths of f, pruning branches whose
+// condition is, on the path taken so far, a phi of boolean constants (flag variables).
+func FeasiblePaths(f *ssa.Function, limit int) ([][]*ssa.BasicBlock, bool) {
+	var out [][]*ssa.BasicBlock
+	var cur []*ssa.BasicBlock
+	on := map[*ssa.BasicBlock]bool{}
+	ok := true
+	constOnPath := func(v ssa.Value) (bool, bool) {
+		for depth := 0; depth < 4; depth++ {
+			switch x := v.(type) {
+			case *ssa.Const:
+				if x.Value != nil && x.Value.Kind() == constant.Bool {
+					return constant.BoolVal(x.Value), true
+				}
+				return false, false
+			case *ssa.Phi:
+				// predecessor of x.Block() on the current path
+				var pred *ssa.BasicBlock
+				for i, b := range cur {
+					if b == x.Block() && i > 0 {
+						pred = cur[i-1]
+					}
+				}
+				if pred == nil {
+					return false, false
+				}
+				found := false
+				for i, pb := range x.Block().Preds {
+					if pb == pred {
+						v, found = x.Edges[i], true
+					}
+				}
+				if !found {
+					return false, false
+				}
+			default:
+				return false, false
+			}
+		}
+		return false, false
+	}
+	var dfs func(b *ssa.BasicBlock)
+	dfs = func(b *ssa.BasicBlock) {
+		if !ok || on[b] {
+			return
+		}
+		on[b] = true
+		cur = append(cur, b)
+		last := b.Instrs[len(b.Instrs)-1]
+		switch x := last.(type) {
+		case *ssa.Return:
+			out = append(out, append([]*ssa.BasicBlock{}, cur...))
+			if len(out) > limit {
+				ok = false
+			}
+		case *ssa.If:
+			if val, known := constOnPath(x.Cond); known {
+				if val {
+					dfs(b.Succs[0])
+				} else {
+					dfs(b.Succs[1])
+				}
+			} else {
+				dfs(b.Succs[0])
+				dfs(b.Succs[1])
+			}
+		default:
+			for _, s := range b.Succs {
+				dfs(s)
+			}
+		}
+		cur = cur[:len(cur)-1]
+		on[b] = false
+	}
+	if len(f.Blocks) > 0 {
+		dfs(f.Blocks[0])
+	}
+	return out, ok
 }
